@@ -27,8 +27,8 @@ class Model:
             self.p.kill()
 
 # ------------------------------------------------------------------ trace parsing
-LIFE_PREFIXES = ('BACKUP', 'BSCAN', 'COPY', 'COPYSCAN', 'LSDIR', 'WRONGCMP', 'FAILOPEN', 'LOCK2')
-LIFE_REOPEN_OPS = ('copydb', 'wrongcmp', 'failopen')       # close + ... + open: a `reopen` for the engine model
+LIFE_PREFIXES = ('BACKUP', 'BSCAN', 'COPY', 'COPYSCAN', 'LSDIR', 'WRONGCMP', 'FAILOPEN', 'LOCK2', 'REBACKUP', 'RECOPY')
+LIFE_REOPEN_OPS = ('copydb', 'wrongcmp', 'failopen', 'recopy')       # close + ... + open: a `reopen` for the engine model
 LDB_INVALID = 30004
 
 def parse_trace(text):
@@ -254,6 +254,7 @@ def validate(calls, ops, opts, model_exe, res, keys_known, check_every_layout=Tr
     repair_new = set()    # tables created by repair from log files
     gc_clean = True       # the last obsolete-file removal ran while no iterator pinned an old version
     backups = {}          # C20: backup slot -> model view at the moment the backup was taken
+    copies = {}           # C20: copy slot -> model view at the moment the (last successful) copy was taken
     lk_open = False       # C20: the lock model (Lifecycle.v lk_step) has a handle open on the directory
     try:
         m.ask('e_init %d' % rev)
@@ -410,7 +411,7 @@ def validate(calls, ops, opts, model_exe, res, keys_known, check_every_layout=Tr
                                         actual=ik(es_[0]) + '/' + ik(es_[-1]))
 
             # ---- lifecycle (C20): lock model, backups, copies, refused opens
-            if name in ('open', 'reopen', 'repair', 'close') + LIFE_REOPEN_OPS or name in ('backup', 'bscan', 'lock2'):
+            if name in ('open', 'reopen', 'repair', 'close') + LIFE_REOPEN_OPS or name in ('backup', 'bscan', 'lock2', 'rebackup'):
                 life = {}
                 for l in call.get('life', []):
                     life.setdefault(l.split(' ', 1)[0], []).append(l.split(' ', 1)[1] if ' ' in l else '')
@@ -442,6 +443,26 @@ def validate(calls, ops, opts, model_exe, res, keys_known, check_every_layout=Tr
                         if orc != 0 or ents != mv or status != '0':
                             res.problem('backup-contents', call['idx'], op=opline, implementation=life['BSCAN'][0][:2000], spec=mv[:2000])
                         backups[int(a[1])] = mv
+                elif name == 'rebackup' and ret != 'closed':
+                    kv = kvs(life['REBACKUP'][0]); slot = int(a[1]); t = life.get('BSCAN', ['none'])[0]
+                    mv = m.ask('e_view -')
+                    if int(kv['self']) == 0:
+                        res.problem('backup-onto-source-accepted', call['idx'], op=opline, detail='ldb_backup onto the open database\'s own directory returned OK')
+                    if slot in backups:
+                        if t == 'none':
+                            res.problem('backup-not-independent', call['idx'], op=opline, detail='a second backup onto the same target removed the earlier backup (rc=%s)' % kv['rc'])
+                        else:
+                            orc, ents, status = other_scan(t)
+                            want = backups[slot] if int(kv['rc']) != 0 else mv       # refused: untouched; accepted: the new contents
+                            if orc != 0 or ents != want or status != '0':
+                                res.problem('backup-not-independent', call['idx'], op=opline, implementation=t[:2000], spec=want[:2000],
+                                            detail='second backup onto an existing target (rc=%s) damaged it' % kv['rc'])
+                            elif int(kv['rc']) == 0: backups[slot] = mv
+                    elif int(kv['rc']) == 0 and t != 'none':
+                        orc, ents, status = other_scan(t)
+                        if orc != 0 or ents != mv or status != '0':
+                            res.problem('backup-contents', call['idx'], op=opline, implementation=t[:2000], spec=mv[:2000])
+                        else: backups[slot] = mv
                 elif name == 'bscan':
                     t = life.get('BSCAN', ['none'])[0]
                     if int(a[1]) in backups:
@@ -463,6 +484,23 @@ def validate(calls, ops, opts, model_exe, res, keys_known, check_every_layout=Tr
                             orc, ents, status = other_scan(life['COPYSCAN'][0])
                             if orc != 0 or ents != mv or status != '0':
                                 res.problem('copy-contents', call['idx'], op=opline, implementation=life['COPYSCAN'][0][:2000], spec=mv[:2000])
+                            copies[int(a[1])] = mv
+                    elif name == 'recopy':
+                        mv = m.ask('e_view -'); kv = kvs(life['RECOPY'][0])
+                        if int(kv['first']) != 0:
+                            res.problem('copy-contents', call['idx'], op=opline, detail='ldb_copy failed: ' + life['RECOPY'][0])
+                        else:
+                            if int(kv['held_after']) == 1:
+                                res.problem('lock-not-released', call['idx'], op=opline, implementation=life['RECOPY'][0],
+                                            detail='after ldb_copy onto an existing target (rc=%s) the source directory is still locked' % kv['rc'])
+                            orc, ents, status = other_scan(life['COPYSCAN'][0]) if 'COPYSCAN' in life else (-1, '', '')
+                            slot = int(a[1])
+                            # refused: the target keeps what the last successful copy put there; accepted (rc 0): the new contents
+                            want = mv if (slot not in copies or int(kv['rc']) == 0) else copies[slot]
+                            if orc != 0 or ents != want or status != '0':
+                                res.problem('copy-contents', call['idx'], op=opline, implementation=life.get('COPYSCAN', [''])[0][:2000], spec=want[:2000],
+                                            detail='ldb_copy onto an existing database (rc=%s) damaged it' % kv['rc'])
+                            if slot not in copies or int(kv['rc']) == 0: copies[slot] = mv
                     elif name == 'wrongcmp':
                         rc = int(kvs(life['WRONGCMP'][0])['rc'])
                         pred = int(m.ask('open_cmp %s %s' % (('reverse', 'bytewise') if rev else ('bytewise', 'reverse'))))
@@ -480,7 +518,7 @@ def validate(calls, ops, opts, model_exe, res, keys_known, check_every_layout=Tr
                         if lock('l_failed') != 'failed':
                             res.problem('lock-not-released', call['idx'], op=opline, detail='lock model')
                     pred = lock('l_open'); lk_open = pred == 'opened'
-                    if ret.split(' ')[0] != '0' and pred == 'opened' and name in ('wrongcmp', 'failopen'):
+                    if ret.split(' ')[0] != '0' and pred == 'opened' and name in ('wrongcmp', 'failopen', 'recopy'):
                         res.problem('lock-not-released', call['idx'], op=opline, implementation=ret,
                                     detail='open after a failed open did not succeed')
 
